@@ -42,6 +42,7 @@ type cliIn struct {
 	Ctrs   []FakeCtr `json:"ctrs"`
 	Orders [][]int   `json:"orders"`
 	Reps   int       `json:"reps"`
+	Q      []int     `json:"q,omitempty"` // e2e: the query text ("{}" when absent)
 }
 
 type spell struct {
@@ -261,7 +262,11 @@ func probeE2E(tr *Trace, scn int, raw json.RawMessage, in *cliIn) {
 			evalOnce := func(fake *FakeDocker) (lokiapi.QueryResponseData, error) {
 				q, _ := dockerlog.NewQuerier(fake)
 				eng := logqlengine.NewEngine(q, logqlengine.Options{})
-				return eng.Eval(context.Background(), "{}", logqlengine.EvalParams{
+				qt := "{}"
+				if len(in.Q) > 0 {
+					qt = S(in.Q)
+				}
+				return eng.Eval(context.Background(), qt, logqlengine.EvalParams{
 					Start: pcommon.NewTimestampFromTime(time.Unix(1699999000, 0)), End: pcommon.NewTimestampFromTime(time.Unix(1700009000, 0)), Limit: -1})
 			}
 			dry := newFakeDocker(nil, scn, in.Ctrs)
@@ -295,7 +300,7 @@ func probeE2E(tr *Trace, scn int, raw json.RawMessage, in *cliIn) {
 
 func genE2E(r *rand.Rand) cliIn {
 	in := cliIn{Kind: "e2e", Now: []int{0, 0, 0}, Has: []bool{false, false, false, false}, Since: []int{}, Step: []int{}, Streams: []renderStream{},
-		Opts: []bool{r.Intn(2) == 0, r.Intn(2) == 0, false}, Reps: 2}
+		Opts: []bool{r.Intn(2) == 0, r.Intn(2) == 0, false}, Reps: 2, Q: []int{}}
 	nc := 2 + r.Intn(3)
 	sec := 1700000001
 	for c := 1; c <= nc; c++ {
@@ -305,6 +310,23 @@ func genE2E(r *rand.Rand) cliIn {
 			sec++
 		}
 		in.Ctrs = append(in.Ctrs, ctr)
+	}
+	if r.Intn(3) == 0 {
+		// one or two containers whose lines a parser stage spreads over several streams: the printed order must still be
+		// the time order, whatever order the streams come in (Go's map order, re-randomised on every one of the runs)
+		nc = 1 + r.Intn(2)
+		in.Ctrs = in.Ctrs[:0]
+		sec = 1700000001
+		for c := 1; c <= nc; c++ {
+			ctr := simpleCtr(fmt.Sprintf("id%d", c), fmt.Sprintf("n%d", c), []Frame{})
+			for j := 0; j < 3+r.Intn(5); j++ {
+				ctr.Frames = append(ctr.Frames, Frame{Typ: 1, TS: []int{sec, 0}, Msg: B(fmt.Sprintf("lvl=%s n=%d", []string{"a", "b", "c", "d"}[r.Intn(4)], j%3))})
+				sec++
+			}
+			in.Ctrs = append(in.Ctrs, ctr)
+		}
+		in.Q = B("{} | logfmt")
+		in.Reps = 6
 	}
 	// all completion orders
 	var rec func(cur []int, used []bool)
